@@ -107,6 +107,8 @@ def _dispatch(ex, st, f, args, kwargs, node):
         if a.ty == "py":
             a = S.unbox(a.t, src)
         yield st, V(dst, a.t)
+    elif k == "lemma":
+        yield from lemma_call(ex, st, f.val, args, kwargs, node)
     elif k == "pyfn":
         # helper usable only inside contract clauses
         yield from clause_helper(ex, st, f.val, args, kwargs, node)
@@ -465,6 +467,7 @@ def inline_call(ex, st, fi, bound, node):
     old_index = ex.fr.loop_index
     from .engine import loops_in
     ex.fr.loop_index = {id(n): i for i, n in enumerate(loops_in(fi.node))}
+    ex.fr.func_stack = getattr(ex.fr, "func_stack", []) + [fi.node]
     try:
         st.frames.append(dict(bound))
         nframes = len(st.frames)
@@ -486,6 +489,7 @@ def inline_call(ex, st, fi, bound, node):
         ex.fr.inline_stack = ex.fr.inline_stack[:-1]
         ex.fr.loop_prefix = saved_loop_prefix
         ex.fr.loop_index = old_index
+        ex.fr.func_stack = ex.fr.func_stack[:-1]
     yield from res
 
 
@@ -532,3 +536,32 @@ def construct(ex, st, ci, args, kwargs, node):
             yield st1, r
         else:
             yield st1, ref
+
+
+def lemma_call(ex, st, c, args, kwargs, node):
+    """application of a lemma: in total mode (clauses, hints) the instantiated statement
+    `requires ==> ensures`; in ghost code (lemma bodies) a call by contract with a
+    termination (decreases) obligation."""
+    from . import callcontract
+    params = c.params or list(c.types.keys())
+    fv = {}
+    for p, a in zip(params, args):
+        fv[p] = callcontract._coerce(a, c.types.get(p, "py")) if isinstance(a, V) else a
+    for k2, v in kwargs.items():
+        fv[k2] = v
+    ex.eng.used_lemmas.add(c.qualname)
+    pre = callcontract.clause(ex, st, c, c.requires, fv) if c.requires is not None else z3.BoolVal(True)
+    post = callcontract.clause(ex, st, c, c.ensures, fv) if c.ensures is not None else z3.BoolVal(True)
+    if ex.total:
+        yield st, V("bool", z3.Implies(pre, post))
+        return
+    ex.eng.obligation(ex, st, f"lemma.{c.qualname}.pre", pre, "call-pre", node)
+    cur = ex.fr.contract
+    if cur is not None and cur.kind == "lemma" and cur.qualname == c.qualname:
+        if c.decreases is None:
+            raise _U(f"recursive lemma {c.qualname} without decreases")
+        m_new = callcontract.clause_term(ex, st, c, c.decreases, fv)
+        m_old = ex.fr.entry_measure
+        ex.eng.obligation(ex, st, f"lemma.{c.qualname}.decreases", z3.And(m_new >= 0, m_new < m_old), "decreases", node)
+    st.assume(post)
+    yield st, S.none()
